@@ -235,8 +235,12 @@ class Endpoint:
     def __init__(self):
         self.log = []
 
+    close_at = None
+
     def callback(self, handler, opcode, payload):
         self.log.append((opcode, payload))
+        if self.close_at is not None and len(self.log) - 1 == self.close_at:
+            handler.close()
 
 
 class FakeRequest:
@@ -264,11 +268,14 @@ def client_frame(i, plen):
     return raw, SEG_OPS[opi], data
 
 
-def l183(k, cuts, maxlen):
+def l183(k, cuts, maxlen, closes=False):
     ep = Endpoint()
     req = FakeRequest()
     buf = ws.WebSocketTemporaryRingBuffer(req)
     handler = ws.WebSocketTemporaryHandler(('h', 1), {}, {}, buf, ep)
+    # the application may close the websocket from inside a callback (server-initiated close): the client has not
+    # seen that yet, its frames already in flight are still delivered
+    ep.close_at = choose(k + 1, 'server_closes_at') if closes else k      # k = never
     stream = b''
     want = []
     for i in range(k):
@@ -303,12 +310,21 @@ def replay_l183(cfg, m):
     c = real('mpgameserver.http_server')
     k = cfg['k']
 
+    def ch(prefix):
+        for kk, v in m.items():
+            if kk.startswith(prefix + '#'):
+                return v
+        return 0
+
     class Ep:
         def __init__(self):
             self.log = []
+            self.close_at = ch('server_closes_at') if cfg.get('closes') else k
 
         def callback(self, handler, opcode, payload):
             self.log.append((opcode, bytes(payload) if not isinstance(payload, str) else payload))
+            if len(self.log) - 1 == self.close_at:
+                handler.close()
 
     class Req:
         chunked = 1
@@ -321,12 +337,6 @@ def replay_l183(cfg, m):
     ops = [c.WebSocketOpCode.Binary, c.WebSocketOpCode.Ping, c.WebSocketOpCode.Pong]
     stream = b''
     want = []
-
-    def ch(prefix):
-        for kk, v in m.items():
-            if kk.startswith(prefix + '#'):
-                return v
-        return 0
     for i in range(k):
         plen = ch('f%d_len' % i)
         opi = ch('f%d_op' % i)
@@ -344,8 +354,9 @@ def replay_l183(cfg, m):
     return ep.log != want, 'cuts=%s delivered=%d of %d' % (pos, len(ep.log), k)
 
 
-R.add('L18.3', l183, lambda tier: ([dict(k=1, cuts=1, maxlen=2), dict(k=2, cuts=1, maxlen=1), dict(k=2, cuts=0, maxlen=1), dict(k=2, cuts=2, maxlen=1)] if tier == 'quick'
-                                   else [dict(k=1, cuts=2, maxlen=3), dict(k=2, cuts=2, maxlen=2), dict(k=3, cuts=1, maxlen=1), dict(k=3, cuts=0, maxlen=1)]),
+R.add('L18.3', l183, lambda tier: ([dict(k=1, cuts=1, maxlen=2), dict(k=2, cuts=1, maxlen=1, closes=True), dict(k=2, cuts=0, maxlen=1, closes=True), dict(k=2, cuts=2, maxlen=1)] if tier == 'quick'
+                                   else [dict(k=1, cuts=2, maxlen=3), dict(k=2, cuts=2, maxlen=2), dict(k=3, cuts=1, maxlen=1, closes=True), dict(k=3, cuts=0, maxlen=1, closes=True),
+                                         dict(k=2, cuts=2, maxlen=1, closes=True)]),
       replay=replay_l183,
       desc='k masked client frames cut at symbolic positions into chunks fed to the real handler: each frame delivered once, in order, unmasked',
       expect=['every client frame is delivered exactly once', 'payload delivered unmasked'],
